@@ -202,3 +202,57 @@ Theorem c09_reap_delay_asymmetric_refuted :
 Proof. exists 0, 0, mux_initial_rtt, mux_min_rtt. split; [apply N.le_refl|]. split; [apply N.le_refl|].
   vm_compute. intros H. apply H. reflexivity. Qed.
 Print Assumptions c09_reap_delay_asymmetric_refuted.
+
+(* ================================================================================================================
+   The two ends of one session (Model/MuxPair.v, Proofs/MuxPairProofs.v).  A frame carries only (REL, id): the
+   identifiers of a session are ONE space shared by its two muxers, so "concurrently created tubes get distinct
+   identifiers" needs the two ends to pick from disjoint sets.  newMuxer gives tubes.Server parity 0 and
+   tubes.Client parity 1; which constructor runs is the application's choice (hopclient.connectLocked,
+   hopserver.newSession).  The original hopclient called tubes.Server: repaired ("fix: hopclient: run the client
+   end of a session as the client muxer ..."), driver classes app-session-roles / app-session-concurrent-create. *)
+From Hop Require Import MuxPair MuxPairProofs.
+
+(* ---- every identifier that Create*Tube returns, anywhere in any history (creates, incoming frames with any
+   content — hence any behaviour of the peer and of the network —, accepts, closes, reaps, reads), has the parity
+   of the muxer's role and is below 256 *)
+Theorem c09_created_ids_have_role_parity : forall (server : bool) (ops : list mop) (x : bool * N),
+  In x (created_ids (mux_new server) ops) -> snd x mod 2 = (if server then 0 else 1) /\ snd x < 256.
+Proof. intros server ops x H. apply (created_ids_parity ops _ (minv_new server) _ H). Qed.
+Print Assumptions c09_created_ids_have_role_parity.
+
+(* ---- two ends with different roles never hand out the same identifier: for ALL histories at the two ends
+   (independent lists of operations: the frames each end receives are arbitrary, so this covers every
+   interleaving of the two ends' creates — "concurrently" — and every network schedule) *)
+Theorem c09_two_ends_distinct_roles_disjoint_ids : forall (sa sb : bool) (opsA opsB : list mop), sa <> sb ->
+  forall x y, In x (created_ids (mux_new sa) opsA) -> In y (created_ids (mux_new sb) opsB) -> snd x <> snd y.
+Proof. exact two_ends_disjoint. Qed.
+Print Assumptions c09_two_ends_distinct_roles_disjoint_ids.
+
+(* ---- instantiated with the roles the application code gives the two ends of a hop session *)
+Theorem c09_hop_session_ends_disjoint_ids : forall (opsC opsS : list mop),
+  forall x y, In x (created_ids hopclient_mux opsC) -> In y (created_ids hopserver_mux opsS) -> snd x <> snd y.
+Proof. intros opsC opsS. apply two_ends_disjoint. discriminate. Qed.
+Print Assumptions c09_hop_session_ends_disjoint_ids.
+
+Example c09_two_ends_example :
+  created_ids hopclient_mux [MCreate true 1; MFrame (req_frame true 0 2); MCreate true 1; MCreate false 6] = [(true, 1); (true, 3); (false, 1)] /\
+  created_ids hopserver_mux [MCreate true 2; MFrame (req_frame true 1 1); MCreate true 2; MCreate false 3] = [(true, 0); (true, 2); (false, 0)].
+Proof. vm_compute. auto. Qed.
+
+(* ---- with the SAME role at both ends (the original hopclient.connectLocked ran tubes.Server against
+   hopserver's tubes.Server) the statement fails on the first tube: both ends pick id 0 *)
+Theorem c09_same_role_ids_collide_refuted :
+  exists (opsC opsS : list mop) (x y : bool * N),
+    In x (created_ids hopclient_original_mux opsC) /\ In y (created_ids hopserver_mux opsS) /\ x = y.
+Proof. exists [MCreate true 7], [MCreate true 9], (true, 0), (true, 0). vm_compute. auto. Qed.
+Print Assumptions c09_same_role_ids_collide_refuted.
+
+(* ---- and the two tubes cross: when the client end's REQ (type 7) reaches the server end, the server end's OWN tube
+   0 (type 9, waiting for the answer to its own REQ) takes it as that answer: nothing is offered to Accept, and
+   the data the client end writes on its type-7 tube is handed to the reader of the server end's type-9 tube.
+   With distinct roles the same history offers the client's tube to Accept and the server's own tube reads nothing. *)
+Theorem c09_same_role_tubes_cross_refuted :
+  same_time_create true true 7 9 [79; 78; 69] = Some (0, 0, false, [79; 78; 69]) /\
+  same_time_create false true 7 9 [79; 78; 69] = Some (1, 0, true, []).
+Proof. vm_compute. auto. Qed.
+Print Assumptions c09_same_role_tubes_cross_refuted.
